@@ -45,7 +45,7 @@ struct C18 : Property
 	std::vector<std::string> probes() const override
 	{
 		return {"W1.last_put_by_non_creator_thread", "W1.switch_inside_put_before_destroy", "W1.container_children_destroyed_once", "W1.three_or_more_threads", "W1.thread_holds_child_of_shared_container", "W3.two_threads_past_unset_test_before_cas",
-		        "W3.seed_source_returned_minus_one", "W3.lost_cas_thread_uses_winner_seed", "W4.disjoint_trees_no_conflict", "sched.pct_policy", "sched.random_policy", "atomics.seen"};
+		        "W3.seed_source_returned_minus_one", "W3.lost_cas_thread_uses_winner_seed", "W3.default_hash_selected_again_after_first_use", "W1.owner_replaces_userdata_before_its_put", "W4.disjoint_trees_no_conflict", "sched.pct_policy", "sched.random_policy", "atomics.seen"};
 	}
 	std::vector<std::string> probes_expected_zero() const override { return {"W1.switch_between_load_and_store_of_counter"}; }
 	std::vector<std::string> real_components() const override
@@ -99,7 +99,7 @@ struct C18 : Property
 				{
 					Op o;
 					o.kind = "t";
-					o.a = {t, (int64_t)r.below(3), (int64_t)r.below((uint64_t)nnodes)}; // action 0 get, 1 put, 2 read
+					o.a = {t, (int64_t)r.below(4), (int64_t)r.below((uint64_t)nnodes)}; // action 0 get, 1 put, 2 read, 3 replace the userdata (designated owner only)
 					p.ops.push_back(o);
 				}
 			}
@@ -126,7 +126,7 @@ struct C18 : Property
 		{
 			Op o;
 			o.kind = "seedrace";
-			o.a = {(int64_t)r.below(9)}; // %3: how many leading seed-source answers are the forbidden -1
+			o.a = {(int64_t)r.below(18)}; // %3: how many leading seed-source answers are the forbidden -1
 			p.ops.push_back(o);
 		}
 		return p;
@@ -151,12 +151,17 @@ struct C18 : Property
 		int seed_calls = 0;
 		int minus_one_left = 0;
 		int threads_past_test = 0;
+		int nthreads = 1;
+		bool retagged = false;
 	};
 	static Shared *g_sh;
 
+	static thread_local bool t_retagging;
 	static void node_deleted(struct json_object *, void *ud)
 	{
 		HarnessScope hs;
+		if (t_retagging)
+			return; // json_object_set_userdata runs the previous deleter when the userdata is replaced: not a destruction
 		Shared &s = *g_sh;
 		size_t n = (size_t)(intptr_t)ud;
 		if (s.parent_of[n] >= 0 && s.destroyed[(size_t)s.parent_of[n]] == 0)
@@ -205,6 +210,17 @@ struct C18 : Property
 						s.errors.push_back("C18:put-freed-without-destruction|json_object_put returned 1 for node " + std::to_string(n) + " but its destruction callback ran " +
 						                   std::to_string(s.destroyed[n]) + " time(s)");
 				}
+			}
+			else if (action == 3 && (int)(n % (size_t)s.nthreads) == t)
+			{
+				if (s.owned[(size_t)t][n] <= 0)
+					continue;
+				// ONE designated owner re-installs the node's userdata/deleter while it holds a reference (nobody else touches these
+				// fields); its later put publishes the new values to whichever thread ends up destroying the node
+				t_retagging = true;
+				LIBV(json_object_set_userdata(s.nodes[n], (void *)(intptr_t)n, node_deleted));
+				t_retagging = false;
+				s.retagged = true;
 			}
 			else
 			{
@@ -375,6 +391,7 @@ struct C18 : Property
 			nthreads = 2;
 		if (nthreads > 4)
 			nthreads = 4;
+		s.nthreads = nthreads;
 		struct simthr_config cfg;
 		memset(&cfg, 0, sizeof cfg);
 		cfg.seed = (uint64_t)p.c("sched_seed", 1);
@@ -444,7 +461,7 @@ struct C18 : Property
 						s.owned[(size_t)t][n] = (int)((op.arg(1 + (n % np)) + (int64_t)n + t) % 2); // some threads also hold a child
 				}
 				else if (op.kind == "t")
-					s.script[(size_t)t].push_back({(int)(op.arg(1) % 3), (int)(op.arg(2) % (int64_t)nn)});
+					s.script[(size_t)t].push_back({(int)(op.arg(1) % 4), (int)(op.arg(2) % (int64_t)nn)});
 			}
 			// every parent must be owned by somebody: thread 0 takes one reference of otherwise unowned parents
 			for (size_t n = 0; n < np; n++)
@@ -564,6 +581,8 @@ struct C18 : Property
 				ctx.probe("W1.switch_between_load_and_store_of_counter");
 			if (st.switches)
 				ctx.probe("W1.switch_inside_put_before_destroy");
+			if (s.retagged)
+				ctx.probe("W1.owner_replaces_userdata_before_its_put");
 			ctx.cover("W1|threads" + std::to_string(nthreads) + "|nodes" + std::to_string(s.nodes.size()));
 		}
 		else if (workload == 4)
@@ -577,6 +596,12 @@ struct C18 : Property
 		else
 		{
 			// every hash of the fixed key, in every thread, early and late, and afterwards single-threaded, must be equal
+			// (selecting the default hash again - a no-op for a seed that is fixed once - must not change it either)
+			if (!p.ops.empty() && (p.ops[0].arg(0) / 9) % 2 == 1)
+			{
+				LIB(json_global_set_string_hash(JSON_C_STR_HASH_DFLT));
+				ctx.probe("W3.default_hash_selected_again_after_first_use");
+			}
 			struct json_object *o = LIB(json_object_new_object());
 			unsigned long after = LIB(lh_get_hash(json_object_get_object(o), "fixed-key"));
 			LIBV(json_object_put(o));
@@ -596,6 +621,7 @@ struct C18 : Property
 	}
 };
 C18::Shared *C18::g_sh = nullptr;
+thread_local bool C18::t_retagging = false;
 std::vector<C18::TreeJob> *C18::g_jobs = nullptr;
 REGISTER_PROPERTY(C18)
 } // namespace
